@@ -21,6 +21,7 @@ macro_rules! props {
 
 pub mod common;
 pub mod inst;
+pub mod vault;
 pub mod c15_scale;
 
 props! {
